@@ -24,7 +24,7 @@ ASSUMPTIONS = ['only the initial order of each work-item batch is permuted (that
                'error-kind differences involving CircularRefError on cycles through lookups are not judged (C18 covers '
                'same-row cycles, where they are judged)']
 BUDGET = {'quick': dict(examples=640, shards=16, max_seconds=75),
-          'thorough': dict(examples=5000, shards=16, max_seconds=1800)}
+          'thorough': dict(examples=1800, shards=16, max_seconds=1800)}
 SHRINK_BUDGET = {'quick': 40, 'thorough': 300}
 
 
